@@ -52,6 +52,10 @@ fn main() {
         return;
     }
     vh::report::set_current_seed(cfg.seed);
+    if let Some(p) = &out {
+        let _ = std::fs::remove_file(format!("{p}.watchdog"));
+        vh::report::start_watchdog(p.clone(), cfg.case.clone());
+    }
     let t0 = Instant::now();
     let Some(res) = run(&id, &cfg) else {
         eprintln!("unknown property {id}");
